@@ -366,6 +366,30 @@ func gen(t *rapid.T) Case {
 	if rapid.Bool().Draw(t, "with_mg") {
 		c.Mg = logUniform(t, "mg_M", 1e-5, 0.1)
 	}
+	// one condition in eight is a tie: two quantities that enter the formula side by side are exactly equal (the
+	// sodium term and the magnesium term of the salt correction, 140 [Mg] = [Na] bit for bit; equal concentrations)
+	switch rapid.IntRange(0, 31).Draw(t, "tie") {
+	case 0:
+		if mg := logUniform(t, "mg_tie_M", 1e-5, 1.0/140); 140*mg >= 1e-3 {
+			c.Mg, c.Na = mg, 140*mg
+		}
+	case 1:
+		c.Mg = min(c.Na, 0.1)
+		c.Na = c.Mg
+	case 2:
+		c.Oligo = min(c.Na, 1e-3)
+		c.Na = c.Oligo
+	case 3:
+		c.Na, c.Mg = rapid.SampledFrom([][2]float64{{0.14, 0.001}, {0.07, 0.0005}, {1.4e-3, 1e-5}, {0.28, 0.002}, {0.7, 0.005}, {1, 0.1}, {1e-3, 0}, {0.05, 0}}).Draw(t, "round_pair")[0], 0
+		c.Mg = c.Na / 140
+		if 140*c.Mg != c.Na { // the nearest magnesium concentration for which the product is the sodium concentration exactly
+			for _, m := range []float64{math.Nextafter(c.Mg, 0), math.Nextafter(c.Mg, 1)} {
+				if 140*m == c.Na {
+					c.Mg = m
+				}
+			}
+		}
+	}
 	c.Factor = rapid.Float64Range(1.01, 100).Draw(t, "step_factor")
 	c.Left = vk.DrawSeq(t, "left", "ACGT", 1, 30).String()
 	c.Right = vk.DrawSeq(t, "right", "ACGT", 1, 30).String()
